@@ -1,1 +1,1179 @@
-fn main() { eprintln!("engine not built yet"); std::process::exit(2); }
+//! C15 — combinatorial iterators enumerate exactly the specified set, once each, in order.
+//! Form I (small-scope input enumeration), level "exploration": every input of a finite, stated space is
+//! run through the REAL `rlib_iter` functions and compared with a boring definition-level reference.
+//!
+//! * `iter_submasks` / `iter_supermasks`: every mask of u8, i8, u16, i16; for the 32/64/128-bit and size
+//!   types every mask whose free bits (set bits for submasks, zero bits for supermasks) form a subset of
+//!   bounded size of the positions {0,1,2,7,8,15,16,31,32,63,64,127} ∩ width.  Oracle: the yielded items,
+//!   read as UNSIGNED bit patterns, are members (submask / supermask of x), strictly monotone
+//!   (decreasing / increasing), exactly 2^free many, and end in 0 / all-ones.  On a failure (and in
+//!   `--replay`) the full list is compared with the list built bit by bit from the definition.
+//! * `next_permutation`: every word over {0,1,2} up to a length bound and every permutation of n distinct
+//!   elements: result = successor in the sorted list of distinct arrangements of the multiset; the last
+//!   arrangement returns false and leaves the ascending order.  `iter_permutations`: that list, exactly.
+//! * `iter_neighbours_{4,4d,8}`: all grids 0..=6 x 0..=6, all cells: the exact list in the fixed order
+//!   documented by the crate's own tests.
+
+use rayon::prelude::*;
+use rlib_iter::{iter_neighbours_4, iter_neighbours_4d, iter_neighbours_8, iter_permutations, iter_submasks, iter_supermasks, next_permutation};
+use std::collections::{BTreeMap, BTreeSet};
+use std::fmt::Debug;
+use vcore::*;
+
+fn die(msg: &str) -> ! {
+    println!("MACHINERY-FAILURE property=C15 engine=iter {msg}");
+    eprintln!("MACHINERY-FAILURE property=C15 engine=iter {msg}");
+    std::process::exit(2)
+}
+
+// =================================================================================================
+// masks
+
+#[derive(Clone, Copy, PartialEq, Eq, Debug)]
+enum Dir {
+    Sub,
+    Sup,
+}
+
+impl Dir {
+    fn family(self) -> &'static str {
+        match self {
+            Dir::Sub => "submasks",
+            Dir::Sup => "supermasks",
+        }
+    }
+    fn func(self) -> &'static str {
+        match self {
+            Dir::Sub => "iter_submasks",
+            Dir::Sup => "iter_supermasks",
+        }
+    }
+    fn parse(s: &str) -> Dir {
+        match s {
+            "submasks" => Dir::Sub,
+            "supermasks" => Dir::Sup,
+            _ => die("replay: unknown mask direction"),
+        }
+    }
+}
+
+struct Ty {
+    name: &'static str,
+    bits: u32,
+    signed: bool,
+}
+
+const TYPES: [Ty; 12] = [
+    Ty { name: "u8", bits: 8, signed: false },
+    Ty { name: "i8", bits: 8, signed: true },
+    Ty { name: "u16", bits: 16, signed: false },
+    Ty { name: "i16", bits: 16, signed: true },
+    Ty { name: "u32", bits: 32, signed: false },
+    Ty { name: "i32", bits: 32, signed: true },
+    Ty { name: "u64", bits: 64, signed: false },
+    Ty { name: "i64", bits: 64, signed: true },
+    Ty { name: "usize", bits: usize::BITS, signed: false },
+    Ty { name: "isize", bits: isize::BITS, signed: true },
+    Ty { name: "u128", bits: 128, signed: false },
+    Ty { name: "i128", bits: 128, signed: true },
+];
+
+const POSITIONS: [u32; 12] = [0, 1, 2, 7, 8, 15, 16, 31, 32, 63, 64, 127];
+
+fn width_mask(bits: u32) -> u128 {
+    if bits == 128 {
+        u128::MAX
+    } else {
+        (1u128 << bits) - 1
+    }
+}
+
+/// bit pattern + (for signed types) the value the type gives it
+fn show(ty: usize, bits: u128) -> String {
+    let t = &TYPES[ty];
+    if t.signed && (bits >> (t.bits - 1)) & 1 == 1 {
+        let v: i128 = if t.bits == 128 { bits as i128 } else { bits as i128 - (1i128 << t.bits) };
+        format!("{bits:#x} (= {v}{})", t.name)
+    } else {
+        format!("{bits:#x}")
+    }
+}
+
+/// Run the REAL iterator of type `ty` on the mask with unsigned bit pattern `bits`, handing every yielded
+/// item (reinterpreted as unsigned, zero-extended) to `f` until `f` says stop.
+#[inline(always)]
+fn drive<F: FnMut(u128) -> bool>(ty: usize, dir: Dir, bits: u128, mut f: F) {
+    macro_rules! go {
+        ($t:ty, $u:ty) => {{
+            let x = bits as $u as $t;
+            match dir {
+                Dir::Sub => {
+                    for y in iter_submasks(x) {
+                        if !f(y as $u as u128) {
+                            break;
+                        }
+                    }
+                }
+                Dir::Sup => {
+                    for y in iter_supermasks(x) {
+                        if !f(y as $u as u128) {
+                            break;
+                        }
+                    }
+                }
+            }
+        }};
+    }
+    match ty {
+        0 => go!(u8, u8),
+        1 => go!(i8, u8),
+        2 => go!(u16, u16),
+        3 => go!(i16, u16),
+        4 => go!(u32, u32),
+        5 => go!(i32, u32),
+        6 => go!(u64, u64),
+        7 => go!(i64, u64),
+        8 => go!(usize, usize),
+        9 => go!(isize, usize),
+        10 => go!(u128, u128),
+        11 => go!(i128, u128),
+        _ => unreachable!(),
+    }
+}
+
+/// Number of free bits: the bits a submask may drop / a supermask may add.
+fn free_bits(dir: Dir, x: u128, width: u32) -> u32 {
+    match dir {
+        Dir::Sub => x.count_ones(),
+        Dir::Sup => (width_mask(width) & !x).count_ones(),
+    }
+}
+
+/// Definition-level streaming oracle: membership, strict monotonicity (unsigned), count, terminal item.
+/// strictly monotone + all members + exactly 2^free items  <=>  the sorted list of all sub/supermasks.
+struct SeqCheck {
+    dir: Dir,
+    x: u128,
+    wm: u128,
+    expect: u64,
+    prev: Option<u128>,
+    cnt: u64,
+    bad: bool,
+    /// the item at which the signed representation wraps when stepping (MIN for -1, MAX for +1)
+    boundary: u128,
+    crossed: bool,
+}
+
+impl SeqCheck {
+    fn new(dir: Dir, x: u128, width: u32) -> SeqCheck {
+        let free = free_bits(dir, x, width);
+        if free > 40 {
+            die("mask with more than 40 free bits handed to the streaming oracle");
+        }
+        let top = 1u128 << (width - 1);
+        SeqCheck {
+            dir,
+            x,
+            wm: width_mask(width),
+            expect: 1u64 << free,
+            prev: None,
+            cnt: 0,
+            bad: false,
+            boundary: match dir {
+                Dir::Sub => top,
+                Dir::Sup => top - 1,
+            },
+            crossed: false,
+        }
+    }
+
+    /// false = stop iterating
+    #[inline(always)]
+    fn push(&mut self, y: u128) -> bool {
+        self.cnt += 1;
+        // non-termination guard: never consume more than 2^free + 1 items
+        if self.cnt > self.expect + 1 {
+            self.bad = true;
+            return false;
+        }
+        let member = match self.dir {
+            Dir::Sub => y & !self.x == 0,
+            Dir::Sup => y & self.x == self.x && y & !self.wm == 0,
+        };
+        let ordered = match (self.prev, self.dir) {
+            (None, _) => true,
+            (Some(p), Dir::Sub) => y < p,
+            (Some(p), Dir::Sup) => y > p,
+        };
+        if self.prev == Some(self.boundary) {
+            self.crossed = true;
+        }
+        if !member || !ordered {
+            self.bad = true;
+            return false;
+        }
+        self.prev = Some(y);
+        true
+    }
+
+    fn finish(&self) -> bool {
+        let last = match self.dir {
+            Dir::Sub => 0,
+            Dir::Sup => self.wm,
+        };
+        !self.bad && self.cnt == self.expect && self.prev == Some(last)
+    }
+}
+
+/// Spread the low bits of `v` over the set bits of `mask`, lowest first.
+fn deposit(mut v: u64, mask: u128) -> u128 {
+    let mut out = 0u128;
+    for b in 0..128 {
+        if (mask >> b) & 1 == 1 {
+            if v & 1 == 1 {
+                out |= 1u128 << b;
+            }
+            v >>= 1;
+        }
+    }
+    out
+}
+
+/// The list the definition prescribes, built item by item (second, independent oracle).
+fn expected_mask_list(dir: Dir, x: u128, width: u32) -> Vec<u128> {
+    let free = free_bits(dir, x, width);
+    if free > 20 {
+        die("mask with more than 20 free bits handed to the list oracle");
+    }
+    let n = 1u64 << free;
+    match dir {
+        Dir::Sub => (0..n).map(|k| deposit(n - 1 - k, x)).collect(),
+        Dir::Sup => (0..n).map(|k| x | deposit(k, width_mask(width) & !x)).collect(),
+    }
+}
+
+fn hexlist(v: &[u128], from: usize) -> String {
+    let end = (from + 6).min(v.len());
+    let body: Vec<String> = v[from.min(end)..end].iter().map(|b| format!("{b:#x}")).collect();
+    format!("[{}{}]", body.join(","), if end < v.len() { ",…" } else { "" })
+}
+
+/// Plain re-execution of ONE mask case against the full expected list.
+fn diagnose_mask(ty: usize, dir: Dir, x: u128) -> Result<(), String> {
+    let t = &TYPES[ty];
+    let x = x & width_mask(t.bits);
+    let exp = expected_mask_list(dir, x, t.bits);
+    let limit = exp.len() + 1;
+    let mut got: Vec<u128> = vec![];
+    let r = catch(|| {
+        drive(ty, dir, x, |y| {
+            got.push(y);
+            got.len() < limit
+        })
+    });
+    let head = format!("{}::<{}>({})", dir.func(), t.name, show(ty, x));
+    if let Err(p) = r {
+        return Err(format!("{head} panicked after {} items: {p}; expected the {} items {}", got.len(), exp.len(), hexlist(&exp, 0)));
+    }
+    if got == exp {
+        return Ok(());
+    }
+    let k = (0..got.len().min(exp.len())).find(|&k| got[k] != exp[k]).unwrap_or(got.len().min(exp.len()));
+    let e = exp.get(k).map(|b| format!("{b:#x}")).unwrap_or_else(|| "end of iteration".into());
+    let o = got.get(k).map(|b| format!("{b:#x}")).unwrap_or_else(|| "end of iteration".into());
+    let more = if got.len() >= limit { " (stopped by the guard: more items than exist)" } else { "" };
+    Err(format!(
+        "{head}: expected {} items, observed {}{more}; first difference at index {k}: expected {e}, observed {o}; expected from there {}, observed {} (items as unsigned bit patterns)",
+        exp.len(),
+        got.len(),
+        hexlist(&exp, k),
+        hexlist(&got, k)
+    ))
+}
+
+/// The enumerated space of one type: for <= 16 bits every bit pattern; otherwise bounded subsets of
+/// POSITIONS, ordered by (size, value).  A space element S is the FREE-bit set: x = S for submasks,
+/// x = !S for supermasks.
+struct Space {
+    all_below: Option<u64>,
+    subsets: Vec<u128>,
+}
+
+impl Space {
+    fn len(&self) -> usize {
+        match self.all_below {
+            Some(n) => n as usize,
+            None => self.subsets.len(),
+        }
+    }
+    fn free_set(&self, idx: usize) -> u128 {
+        match self.all_below {
+            Some(_) => idx as u128,
+            None => self.subsets[idx],
+        }
+    }
+    fn mask(&self, idx: usize, dir: Dir, width: u32) -> u128 {
+        match dir {
+            Dir::Sub => self.free_set(idx),
+            Dir::Sup => width_mask(width) & !self.free_set(idx),
+        }
+    }
+}
+
+fn space_of(ty: usize, max_free_wide: u32, max_free_16: u32) -> Space {
+    let w = TYPES[ty].bits;
+    if w == 8 {
+        return Space { all_below: Some(256), subsets: vec![] };
+    }
+    if w == 16 && max_free_16 >= 16 {
+        return Space { all_below: Some(65536), subsets: vec![] };
+    }
+    if w == 16 {
+        let mut v: Vec<u128> = (0..65536u128).filter(|m| m.count_ones() <= max_free_16).collect();
+        v.sort_by_key(|m| (m.count_ones(), *m));
+        return Space { all_below: None, subsets: v };
+    }
+    let pos: Vec<u32> = POSITIONS.iter().copied().filter(|&p| p < w).collect();
+    let mut v = vec![];
+    for s in 0u32..(1 << pos.len()) {
+        if s.count_ones() <= max_free_wide {
+            let mut m = 0u128;
+            for (i, &p) in pos.iter().enumerate() {
+                if (s >> i) & 1 == 1 {
+                    m |= 1u128 << p;
+                }
+            }
+            v.push(m);
+        }
+    }
+    v.sort_by_key(|m| (m.count_ones(), *m));
+    Space { all_below: None, subsets: v }
+}
+
+#[derive(Default, Clone, Debug)]
+struct MaskStats {
+    cases: u64,
+    items: u64,
+    nontrivial: u64,
+    terminal_only: u64,
+    crossed: u64,
+    top_bit_free: u64,
+    bad: u64,
+    first_bad: Option<usize>,
+}
+
+impl MaskStats {
+    fn merge(mut self, o: MaskStats) -> MaskStats {
+        self.cases += o.cases;
+        self.items += o.items;
+        self.nontrivial += o.nontrivial;
+        self.terminal_only += o.terminal_only;
+        self.crossed += o.crossed;
+        self.top_bit_free += o.top_bit_free;
+        self.bad += o.bad;
+        self.first_bad = match (self.first_bad, o.first_bad) {
+            (Some(a), Some(b)) => Some(a.min(b)),
+            (a, b) => a.or(b),
+        };
+        self
+    }
+}
+
+fn mask_case(ty: usize, dir: Dir, x: u128, idx: usize) -> MaskStats {
+    let w = TYPES[ty].bits;
+    let mut chk = SeqCheck::new(dir, x, w);
+    let r = catch(|| drive(ty, dir, x, |y| chk.push(y)));
+    let ok = r.is_ok() && chk.finish();
+    let top_free = match dir {
+        Dir::Sub => (x >> (w - 1)) & 1 == 1,
+        Dir::Sup => (x >> (w - 1)) & 1 == 0,
+    };
+    MaskStats {
+        cases: 1,
+        items: chk.cnt,
+        nontrivial: (chk.cnt >= 3) as u64,
+        terminal_only: (chk.cnt == 1) as u64,
+        crossed: chk.crossed as u64,
+        top_bit_free: top_free as u64,
+        bad: !ok as u64,
+        first_bad: if ok { None } else { Some(idx) },
+    }
+}
+
+fn run_masks(ty: usize, dir: Dir, space: &Space) -> MaskStats {
+    let w = TYPES[ty].bits;
+    (0..space.len()).into_par_iter().map(|idx| mask_case(ty, dir, space.mask(idx, dir, w), idx)).reduce(MaskStats::default, MaskStats::merge)
+}
+
+// =================================================================================================
+// permutations
+
+/// All distinct arrangements of the multiset, generated directly in lexicographic order: at every position
+/// try each still-available distinct value in ascending order.
+fn arrangements<T: Ord + Clone>(items: &[T]) -> Vec<Vec<T>> {
+    let mut sorted = items.to_vec();
+    sorted.sort();
+    let mut vals: Vec<(T, usize)> = vec![];
+    for v in sorted {
+        if let Some(last) = vals.last_mut() {
+            if last.0 == v {
+                last.1 += 1;
+                continue;
+            }
+        }
+        vals.push((v, 1));
+    }
+    fn rec<T: Clone>(vals: &mut Vec<(T, usize)>, n: usize, cur: &mut Vec<T>, out: &mut Vec<Vec<T>>) {
+        if cur.len() == n {
+            out.push(cur.clone());
+            return;
+        }
+        for i in 0..vals.len() {
+            if vals[i].1 > 0 {
+                vals[i].1 -= 1;
+                cur.push(vals[i].0.clone());
+                rec(vals, n, cur, out);
+                cur.pop();
+                vals[i].1 += 1;
+            }
+        }
+    }
+    let mut out = vec![];
+    rec(&mut vals, items.len(), &mut vec![], &mut out);
+    out
+}
+
+fn factorial(n: usize) -> u64 {
+    (1..=n as u64).product()
+}
+
+/// Self-check of a reference list: right length (multinomial), strictly increasing, every entry an
+/// arrangement of the multiset.
+fn check_reference_list<T: Ord + Clone>(l: &[Vec<T>], items: &[T]) {
+    let mut sorted = items.to_vec();
+    sorted.sort();
+    let mut expect = factorial(items.len());
+    let mut i = 0;
+    while i < sorted.len() {
+        let mut j = i;
+        while j < sorted.len() && sorted[j] == sorted[i] {
+            j += 1;
+        }
+        expect /= factorial(j - i);
+        i = j;
+    }
+    if l.len() as u64 != expect {
+        die("reference arrangement list has the wrong length");
+    }
+    for k in 0..l.len() {
+        if k > 0 && l[k - 1] >= l[k] {
+            die("reference arrangement list is not strictly increasing");
+        }
+        let mut s = l[k].clone();
+        s.sort();
+        if s != sorted {
+            die("reference arrangement list contains a non-arrangement");
+        }
+    }
+}
+
+struct NextObs {
+    ret: bool,
+    /// the real call changed a position before the last two (pivot not at the very end)
+    deep: bool,
+}
+
+/// ONE `next_permutation` call on the real code against the successor in `l`.
+fn check_next<T: Ord + Clone + Debug>(w: &[T], l: &[Vec<T>]) -> Result<NextObs, String> {
+    let k = match l.binary_search_by(|p| p.as_slice().cmp(w)) {
+        Ok(k) => k,
+        Err(_) => die("input sequence not found in its own reference list"),
+    };
+    let mut d = w.to_vec();
+    let r = catch(|| next_permutation(&mut d));
+    let (eret, edata, note) = if k + 1 < l.len() {
+        (true, &l[k + 1], format!("arrangement {} of {} in lexicographic order, so the successor exists", k + 1, l.len()))
+    } else {
+        (false, &l[0], format!("the last of {} arrangements, so it must wrap to ascending order", l.len()))
+    };
+    match r {
+        Err(p) => Err(format!("next_permutation({w:?}) panicked: {p}; input is {note}; expected return {eret} and sequence {edata:?}")),
+        Ok(ret) => {
+            if ret != eret || d != *edata {
+                Err(format!("next_permutation({w:?}): input is {note}; expected return {eret} and sequence {edata:?}, observed return {ret} and sequence {d:?}"))
+            } else {
+                let deep = w.len() >= 3 && (0..w.len() - 2).any(|i| w[i] != d[i]);
+                Ok(NextObs { ret, deep })
+            }
+        }
+    }
+}
+
+/// ONE `iter_permutations` call on the real code against the whole list `l`, compared on the fly.
+fn check_iter<T: Ord + Clone + Debug>(w: &[T], l: &[Vec<T>]) -> Result<u64, String> {
+    let head = format!("iter_permutations({w:?})");
+    let r = catch(|| {
+        let mut k = 0usize;
+        for p in iter_permutations(w.to_vec()) {
+            if k >= l.len() {
+                return Err(format!("{head}: expected exactly {} arrangements, but a further item {p:?} was yielded at index {k}", l.len()));
+            }
+            if p != l[k] {
+                return Err(format!("{head}: expected {} distinct arrangements in lexicographic order; first difference at index {k}: expected {:?}, observed {p:?}", l.len(), l[k]));
+            }
+            k += 1;
+        }
+        if k < l.len() {
+            return Err(format!("{head}: expected {} arrangements, iteration ended after {k}; next expected {:?}", l.len(), l[k]));
+        }
+        Ok(k as u64)
+    });
+    match r {
+        Ok(x) => x,
+        Err(p) => Err(format!("{head} panicked: {p}")),
+    }
+}
+
+/// pivot exists and the suffix after it holds a value EQUAL to the pivot: the cases where a `>` / `>=`
+/// slip in the rightmost-greater scan changes the result.
+fn tie_sensitive<T: Ord>(w: &[T]) -> bool {
+    for i in (1..w.len()).rev() {
+        if w[i - 1] < w[i] {
+            return w[i..].iter().any(|v| *v == w[i - 1]);
+        }
+    }
+    false
+}
+
+#[derive(Default, Debug)]
+struct PStats {
+    c: [u64; 8],
+    bad: u64,
+    first: Option<(usize, String)>,
+}
+
+impl PStats {
+    fn merge(mut self, o: PStats) -> PStats {
+        for i in 0..8 {
+            self.c[i] += o.c[i];
+        }
+        self.bad += o.bad;
+        self.first = match (self.first.take(), o.first) {
+            (Some(a), Some(b)) => Some(if a.0 <= b.0 { a } else { b }),
+            (a, b) => a.or(b),
+        };
+        self
+    }
+    fn add(&mut self, o: &PStats) {
+        for i in 0..8 {
+            self.c[i] += o.c[i];
+        }
+        self.bad += o.bad;
+    }
+}
+
+// counters of the next_permutation pass
+const NP_CASES: usize = 0;
+const NP_TRUE: usize = 1;
+const NP_FALSE: usize = 2;
+const NP_TIE: usize = 3;
+const NP_DEEP: usize = 4;
+const NP_DUP: usize = 5;
+// counters of the iter_permutations pass
+const IP_CASES: usize = 0;
+const IP_ITEMS: usize = 1;
+const IP_UNSORTED: usize = 2;
+const IP_NONTRIVIAL: usize = 3;
+const IP_DUP: usize = 4;
+
+fn has_dup<T: Ord + Clone>(w: &[T]) -> bool {
+    let mut s = w.to_vec();
+    s.sort();
+    s.windows(2).any(|p| p[0] == p[1])
+}
+
+fn is_sorted<T: Ord>(w: &[T]) -> bool {
+    w.windows(2).all(|p| p[0] <= p[1])
+}
+
+fn np_pass<'l, T, F>(inputs: &[Vec<T>], list_of: F) -> PStats
+where
+    T: Ord + Clone + Debug + Send + Sync + 'l,
+    F: Fn(&[T]) -> &'l [Vec<T>] + Sync,
+{
+    inputs
+        .par_iter()
+        .enumerate()
+        .map(|(idx, w)| {
+            let mut s = PStats::default();
+            s.c[NP_CASES] = 1;
+            s.c[NP_TIE] = tie_sensitive(w) as u64;
+            s.c[NP_DUP] = has_dup(w) as u64;
+            match check_next(w, list_of(w)) {
+                Ok(o) => {
+                    s.c[if o.ret { NP_TRUE } else { NP_FALSE }] = 1;
+                    s.c[NP_DEEP] = o.deep as u64;
+                }
+                Err(m) => {
+                    s.bad = 1;
+                    s.first = Some((idx, m));
+                }
+            }
+            s
+        })
+        .reduce(PStats::default, PStats::merge)
+}
+
+fn ip_pass<'l, T, F>(inputs: &[Vec<T>], list_of: F) -> PStats
+where
+    T: Ord + Clone + Debug + Send + Sync + 'l,
+    F: Fn(&[T]) -> &'l [Vec<T>] + Sync,
+{
+    inputs
+        .par_iter()
+        .enumerate()
+        .map(|(idx, w)| {
+            let mut s = PStats::default();
+            s.c[IP_CASES] = 1;
+            s.c[IP_UNSORTED] = !is_sorted(w) as u64;
+            s.c[IP_DUP] = has_dup(w) as u64;
+            match check_iter(w, list_of(w)) {
+                Ok(n) => {
+                    s.c[IP_ITEMS] = n;
+                    s.c[IP_NONTRIVIAL] = (n >= 3) as u64;
+                }
+                Err(m) => {
+                    s.bad = 1;
+                    s.first = Some((idx, m));
+                }
+            }
+            s
+        })
+        .reduce(PStats::default, PStats::merge)
+}
+
+fn words_upto(maxlen: usize) -> Vec<Vec<u8>> {
+    let mut v = vec![];
+    for len in 0..=maxlen {
+        for code in 0..3usize.pow(len as u32) {
+            let mut w = vec![0u8; len];
+            let mut c = code;
+            for p in (0..len).rev() {
+                w[p] = (c % 3) as u8;
+                c /= 3;
+            }
+            v.push(w);
+        }
+    }
+    v
+}
+
+fn counts3(w: &[u8]) -> [u8; 3] {
+    let mut c = [0u8; 3];
+    for &x in w {
+        c[x as usize] += 1;
+    }
+    c
+}
+
+// =================================================================================================
+// neighbours
+
+const OFF4: [(i64, i64); 4] = [(0, 1), (-1, 0), (0, -1), (1, 0)];
+const OFF4D: [(i64, i64); 4] = [(-1, 1), (-1, -1), (1, -1), (1, 1)];
+const OFF8: [(i64, i64); 8] = [(0, 1), (-1, 1), (-1, 0), (-1, -1), (0, -1), (1, -1), (1, 0), (1, 1)];
+const NB_KINDS: [&str; 3] = ["neighbours_4", "neighbours_4d", "neighbours_8"];
+
+fn nb_offsets(kind: &str) -> &'static [(i64, i64)] {
+    match kind {
+        "neighbours_4" => &OFF4,
+        "neighbours_4d" => &OFF4D,
+        "neighbours_8" => &OFF8,
+        _ => die("unknown neighbour kind"),
+    }
+}
+
+/// The order oracle: the crate's fixed offset order (as pinned by its tests), filtered to the grid.
+fn nb_expected(kind: &str, n: usize, m: usize, i: usize, j: usize) -> Vec<(usize, usize)> {
+    let mut v = vec![];
+    for &(dx, dy) in nb_offsets(kind) {
+        let (a, b) = (i as i64 + dx, j as i64 + dy);
+        if a >= 0 && a < n as i64 && b >= 0 && b < m as i64 {
+            v.push((a as usize, b as usize));
+        }
+    }
+    v
+}
+
+/// The set oracle, straight from geometry (no offset table): cells of the grid at Chebyshev distance 1,
+/// split by Manhattan distance.
+fn nb_geometric(kind: &str, n: usize, m: usize, i: usize, j: usize) -> BTreeSet<(usize, usize)> {
+    let mut s = BTreeSet::new();
+    for a in 0..n {
+        for b in 0..m {
+            let (da, db) = ((a as i64 - i as i64).abs(), (b as i64 - j as i64).abs());
+            if da.max(db) != 1 {
+                continue;
+            }
+            let keep = match kind {
+                "neighbours_4" => da + db == 1,
+                "neighbours_4d" => da + db == 2,
+                _ => true,
+            };
+            if keep {
+                s.insert((a, b));
+            }
+        }
+    }
+    s
+}
+
+fn nb_real(kind: &str, n: usize, m: usize, i: usize, j: usize) -> Result<Vec<(usize, usize)>, String> {
+    catch(|| match kind {
+        "neighbours_4" => iter_neighbours_4(n, m, i, j).take(17).collect::<Vec<_>>(),
+        "neighbours_4d" => iter_neighbours_4d(n, m, i, j).take(17).collect::<Vec<_>>(),
+        _ => iter_neighbours_8(n, m, i, j).take(17).collect::<Vec<_>>(),
+    })
+}
+
+/// ONE neighbour call on the real code; Ok = (number of items, bit pattern of the offsets kept).
+fn check_nb(kind: &str, n: usize, m: usize, i: usize, j: usize) -> Result<(usize, u32), String> {
+    let exp = nb_expected(kind, n, m, i, j);
+    let head = format!("iter_{kind}(n={n}, m={m}, i={i}, j={j})");
+    match nb_real(kind, n, m, i, j) {
+        Err(p) => Err(format!("{head} panicked: {p}; expected {exp:?}")),
+        Ok(got) => {
+            if got == exp {
+                // which of the fixed offsets were observed (read back from the observed cells)
+                let mut pat = 0u32;
+                for (b, &(dx, dy)) in nb_offsets(kind).iter().enumerate() {
+                    if got.iter().any(|&(a, c)| a as i64 - i as i64 == dx && c as i64 - j as i64 == dy) {
+                        pat |= 1 << b;
+                    }
+                }
+                Ok((got.len(), pat))
+            } else {
+                let gs: BTreeSet<_> = got.iter().copied().collect();
+                let note = if gs == nb_geometric(kind, n, m, i, j) && gs.len() == got.len() {
+                    "the right cells, each once, but not in the fixed order"
+                } else {
+                    "not the set of in-bounds neighbours"
+                };
+                Err(format!("{head}: expected {exp:?}, observed {got:?} ({note})"))
+            }
+        }
+    }
+}
+
+// =================================================================================================
+// replay
+
+fn parse_hex(s: &str) -> u128 {
+    u128::from_str_radix(s.trim_start_matches("0x"), 16).unwrap_or_else(|_| die("replay: bad hex mask"))
+}
+
+fn confirm(v: &Value) -> Result<(), String> {
+    let kind = v["kind"].as_str().unwrap_or_else(|| die("replay: no kind"));
+    match kind {
+        "submasks" | "supermasks" => {
+            let tname = v["type"].as_str().unwrap_or_else(|| die("replay: no type"));
+            let ty = TYPES.iter().position(|t| t.name == tname).unwrap_or_else(|| die("replay: unknown type"));
+            diagnose_mask(ty, Dir::parse(kind), parse_hex(v["bits"].as_str().unwrap_or_else(|| die("replay: no bits"))))
+        }
+        "next_permutation" | "iter_permutations" => {
+            let data: Vec<i64> = v["data"].as_array().unwrap_or_else(|| die("replay: no data")).iter().map(|x| x.as_i64().unwrap_or_else(|| die("replay: bad element"))).collect();
+            // the element type only matters for Ord, which all integer types share
+            match v["elem"].as_str() {
+                Some("u8") => {
+                    let w: Vec<u8> = data.iter().map(|&x| x as u8).collect();
+                    let l = arrangements(&w);
+                    if kind == "next_permutation" {
+                        check_next(&w, &l).map(|_| ())
+                    } else {
+                        check_iter(&w, &l).map(|_| ())
+                    }
+                }
+                _ => {
+                    let w: Vec<i32> = data.iter().map(|&x| x as i32).collect();
+                    let l = arrangements(&w);
+                    if kind == "next_permutation" {
+                        check_next(&w, &l).map(|_| ())
+                    } else {
+                        check_iter(&w, &l).map(|_| ())
+                    }
+                }
+            }
+        }
+        k if NB_KINDS.contains(&k) => {
+            let g = |key: &str| v[key].as_u64().unwrap_or_else(|| die("replay: missing grid coordinate")) as usize;
+            check_nb(k, g("n"), g("m"), g("i"), g("j")).map(|_| ())
+        }
+        _ => die("replay: unknown kind"),
+    }
+}
+
+// =================================================================================================
+// self-checks of the oracles (no code under test involved)
+
+fn feed(dir: Dir, x: u128, width: u32, list: &[u128]) -> bool {
+    let mut c = SeqCheck::new(dir, x, width);
+    for &y in list {
+        if !c.push(y) {
+            break;
+        }
+    }
+    c.finish()
+}
+
+fn oracle_self_checks() {
+    // the two mask oracles agree with each other on every 8-bit mask and with hand-written lists
+    for x in 0..256u128 {
+        for dir in [Dir::Sub, Dir::Sup] {
+            if !feed(dir, x, 8, &expected_mask_list(dir, x, 8)) {
+                die("streaming mask oracle rejects the list oracle's list");
+            }
+        }
+    }
+    if expected_mask_list(Dir::Sub, 13, 32) != vec![13, 12, 9, 8, 5, 4, 1, 0] {
+        die("list oracle: submasks of 13");
+    }
+    if expected_mask_list(Dir::Sup, 0xF2, 8) != vec![0xF2, 0xF3, 0xF6, 0xF7, 0xFA, 0xFB, 0xFE, 0xFF] {
+        die("list oracle: supermasks of 0xF2");
+    }
+    let good = [13u128, 12, 9, 8, 5, 4, 1, 0];
+    let corrupt: [&[u128]; 7] = [
+        &[13, 12, 9, 8, 5, 4, 1],        // terminal dropped
+        &[13, 12, 9, 8, 5, 4, 1, 0, 0],  // terminal duplicated
+        &[13, 12, 8, 9, 5, 4, 1, 0],     // order
+        &[13, 12, 9, 8, 4, 1, 0],        // one missing
+        &[13, 12, 10, 9, 8, 5, 4, 1, 0], // foreign item
+        &[12, 9, 8, 5, 4, 1, 0],         // x itself missing
+        &[],                             // nothing
+    ];
+    if !feed(Dir::Sub, 13, 32, &good) || corrupt.iter().any(|l| feed(Dir::Sub, 13, 32, l)) {
+        die("streaming mask oracle does not separate good from corrupted submask lists");
+    }
+    let good = [0xF2u128, 0xF3, 0xF6, 0xF7, 0xFA, 0xFB, 0xFE, 0xFF];
+    let corrupt: [&[u128]; 5] = [
+        &[0xF2, 0xF3, 0xF6, 0xF7, 0xFA, 0xFB, 0xFE],
+        &[0xF2, 0xF3, 0xF6, 0xF7, 0xFA, 0xFB, 0xFE, 0xFF, 0xFF],
+        &[0xF2, 0xF3, 0xF7, 0xF6, 0xFA, 0xFB, 0xFE, 0xFF],
+        &[0xF2, 0xF3, 0xF4, 0xF6, 0xF7, 0xFA, 0xFB, 0xFE, 0xFF],
+        &[0xF2, 0xF3, 0xF6, 0xF7, 0xFA, 0xFB, 0xFE, 0x1FF],
+    ];
+    if !feed(Dir::Sup, 0xF2, 8, &good) || corrupt.iter().any(|l| feed(Dir::Sup, 0xF2, 8, l)) {
+        die("streaming mask oracle does not separate good from corrupted supermask lists");
+    }
+    // 128-bit: top bit handling of the oracles
+    let (a, b) = (1u128 << 127, 1u128 << 100);
+    if expected_mask_list(Dir::Sub, a | b, 128) != vec![a | b, a, b, 0] || !feed(Dir::Sub, a | b, 128, &[a | b, a, b, 0]) {
+        die("mask oracles at 128 bits");
+    }
+    // neighbour order oracle reproduces the literals pinned in /repo/rlib/iter/tests/tests.rs
+    let lit: [(&str, [usize; 4], &[(usize, usize)]); 9] = [
+        ("neighbours_4", [10, 10, 5, 5], &[(5, 6), (4, 5), (5, 4), (6, 5)]),
+        ("neighbours_4", [10, 10, 0, 0], &[(0, 1), (1, 0)]),
+        ("neighbours_4", [10, 10, 9, 9], &[(8, 9), (9, 8)]),
+        ("neighbours_4", [1, 10, 0, 5], &[(0, 6), (0, 4)]),
+        ("neighbours_4d", [10, 10, 5, 5], &[(4, 6), (4, 4), (6, 4), (6, 6)]),
+        ("neighbours_4d", [10, 10, 9, 9], &[(8, 8)]),
+        ("neighbours_8", [10, 10, 5, 5], &[(5, 6), (4, 6), (4, 5), (4, 4), (5, 4), (6, 4), (6, 5), (6, 6)]),
+        ("neighbours_8", [10, 10, 0, 0], &[(0, 1), (1, 0), (1, 1)]),
+        ("neighbours_8", [10, 10, 9, 9], &[(8, 9), (8, 8), (9, 8)]),
+    ];
+    for (k, g, e) in lit {
+        if nb_expected(k, g[0], g[1], g[2], g[3]) != e {
+            die("neighbour order oracle disagrees with the order documented in the crate's tests");
+        }
+    }
+}
+
+/// true iff this build traps integer overflow (the dependency is built with the same profile)
+fn overflow_checks_on() -> bool {
+    catch(|| {
+        let a = std::hint::black_box(255u8);
+        let b = a + std::hint::black_box(1u8);
+        std::hint::black_box(b);
+    })
+    .is_err()
+}
+
+// =================================================================================================
+
+fn main() {
+    let args = Args::parse();
+    quiet_panics();
+    if args.replay.is_some() {
+        Run::replay_main(&args, &confirm);
+    }
+    let mut run = Run::new(&args, "iter", "exploration");
+    let tier = args.tier;
+    let seed = args.seed;
+    oracle_self_checks();
+
+    let mut evaluations = 0u64;
+    let mut nontrivial = 0u64;
+    let mut items_total = 0u64;
+
+    // ---------------------------------------------------------------------------------------- masks
+    let max_free_wide = tier.pick(8u32, 10u32);
+    let max_free_16 = 16u32; // measured: the complete 16-bit space takes ~1 s on 16 cores, so quick has it too
+    let mut mask_cov = serde_json::Map::new();
+    for dir in [Dir::Sub, Dir::Sup] {
+        let mut failing_types: Vec<&str> = vec![];
+        let mut first: Option<(usize, u128)> = None;
+        for ty in 0..TYPES.len() {
+            let space = space_of(ty, max_free_wide, max_free_16);
+            let st = run_masks(ty, dir, &space);
+            evaluations += st.cases;
+            nontrivial += st.nontrivial;
+            items_total += st.items;
+            mask_cov.insert(
+                format!("{}:{}", dir.family(), TYPES[ty].name),
+                json!({
+                    "masks": st.cases, "items_compared": st.items, "masks_with_3_or_more_items": st.nontrivial,
+                    "masks_yielding_only_the_terminal": st.terminal_only, "masks_with_top_bit_free": st.top_bit_free,
+                    "masks_stepping_across_the_top_bit": st.crossed, "failing_masks": st.bad,
+                    "space": if space.all_below.is_some() { "every bit pattern".to_string() } else { format!("free-bit sets = subsets of size <= {} of positions {:?}", if TYPES[ty].bits == 16 { max_free_16 } else { max_free_wide }, POSITIONS.iter().filter(|&&p| p < TYPES[ty].bits).collect::<Vec<_>>()) },
+                }),
+            );
+            if let Some(idx) = st.first_bad {
+                failing_types.push(TYPES[ty].name);
+                if first.is_none() {
+                    first = Some((ty, space.mask(idx, dir, TYPES[ty].bits)));
+                }
+            } else {
+                // non-vacuity per type and direction
+                let expect_cases = space.len() as u64;
+                if st.cases != expect_cases || st.terminal_only != 1 || st.nontrivial == 0 || st.crossed == 0 || st.top_bit_free == 0 || st.top_bit_free == st.cases {
+                    run.machinery_failure(&format!("mask exploration of {} {} is vacuous or lopsided: {:?}", dir.family(), TYPES[ty].name, st));
+                }
+            }
+        }
+        if let Some((ty, x)) = first {
+            match diagnose_mask(ty, dir, x) {
+                Ok(()) => run.machinery_failure(&format!("streaming oracle flagged {} {} {:#x} but the list oracle accepts it", dir.family(), TYPES[ty].name, x)),
+                Err(m) => {
+                    let sig = format!("{}:{}:{:#x}", dir.family(), TYPES[ty].name, x);
+                    let summary = format!("{m} [types with at least one failing mask: {}]", failing_types.join(","));
+                    run.violation(Violation::new(sig, summary, json!({"kind": dir.family(), "type": TYPES[ty].name, "bits": format!("{x:#x}")})));
+                }
+            }
+        }
+    }
+    run.cov("masks", Value::Object(mask_cov));
+
+    // --------------------------------------------------------------------------------- permutations
+    let maxlen = tier.pick(6usize, 7usize);
+    let maxn = tier.pick(7usize, 8usize);
+    let words = words_upto(maxlen);
+    let mut ltab: BTreeMap<[u8; 3], Vec<Vec<u8>>> = BTreeMap::new();
+    for w in &words {
+        let c = counts3(w);
+        if !ltab.contains_key(&c) {
+            let l = arrangements(w);
+            check_reference_list(&l, w);
+            // cross-check the generator with the dumbest possible one: filter all words of that length
+            let brute: Vec<Vec<u8>> = words.iter().filter(|v| v.len() == w.len() && counts3(v) == c).cloned().collect();
+            if brute != l {
+                run.machinery_failure("arrangement generator disagrees with filtering all words");
+            }
+            ltab.insert(c, l);
+        }
+    }
+    let word_list = |w: &[u8]| &ltab[&counts3(w)][..];
+
+    let mut np_tot = PStats::default();
+    let mut ip_tot = PStats::default();
+    let mut np_first: Option<(String, Vec<i64>, String)> = None; // (elem, data, summary)
+    let mut ip_first: Option<(String, Vec<i64>, String)> = None;
+
+    let np_w = np_pass(&words, word_list);
+    np_tot.add(&np_w);
+    nontrivial += np_w.c[NP_DEEP];
+    if let Some((idx, m)) = np_w.first {
+        np_first = Some(("u8".into(), words[idx].iter().map(|&x| x as i64).collect(), m));
+    }
+    let ip_w = ip_pass(&words, word_list);
+    ip_tot.add(&ip_w);
+    nontrivial += ip_w.c[IP_NONTRIVIAL];
+    if let Some((idx, m)) = ip_w.first {
+        ip_first = Some(("u8".into(), words[idx].iter().map(|&x| x as i64).collect(), m));
+    }
+    let np_words_tie = np_w.c[NP_TIE];
+
+    let mut perm_inputs = 0u64;
+    for n in 0..=maxn {
+        let base: Vec<i32> = (0..n as i32).collect();
+        let l = arrangements(&base);
+        check_reference_list(&l, &base);
+        perm_inputs += l.len() as u64;
+        let np = np_pass(&l, |_| &l[..]);
+        let ip = ip_pass(&l, |_| &l[..]);
+        np_tot.add(&np);
+        ip_tot.add(&ip);
+        // permutations of <= 3 distinct elements also occur among the words: not counted twice
+        if n >= 4 {
+            nontrivial += np.c[NP_DEEP] + ip.c[IP_NONTRIVIAL];
+        }
+        if let (None, Some((idx, m))) = (&np_first, np.first) {
+            np_first = Some(("i32".into(), l[idx].iter().map(|&x| x as i64).collect(), m));
+        }
+        if let (None, Some((idx, m))) = (&ip_first, ip.first) {
+            ip_first = Some(("i32".into(), l[idx].iter().map(|&x| x as i64).collect(), m));
+        }
+    }
+    evaluations += np_tot.c[NP_CASES] + ip_tot.c[IP_CASES];
+    items_total += ip_tot.c[IP_ITEMS];
+    for (fam, first, failing) in [("next_permutation", np_first, np_tot.bad), ("iter_permutations", ip_first, ip_tot.bad)] {
+        if let Some((elem, data, m)) = first {
+            let sig = format!("{fam}:{elem}:{}", serde_json::to_string(&data).unwrap());
+            run.violation(Violation::new(sig, format!("{m} [{failing} failing inputs in this family]"), json!({"kind": fam, "elem": elem, "data": data})));
+        }
+    }
+    run.cov(
+        "permutations",
+        json!({
+            "word_alphabet": [0, 1, 2], "max_word_length": maxlen, "words": words.len(), "multisets_of_words": ltab.len(),
+            "max_distinct_elements": maxn, "permutations_of_distinct_elements": perm_inputs,
+            "next_permutation": {
+                "calls": np_tot.c[NP_CASES], "returned_true": np_tot.c[NP_TRUE], "returned_false_wrapped_to_sorted": np_tot.c[NP_FALSE],
+                "inputs_with_repeated_elements": np_tot.c[NP_DUP], "inputs_where_suffix_holds_an_element_equal_to_the_pivot": np_tot.c[NP_TIE],
+                "calls_that_changed_a_position_before_the_last_two": np_tot.c[NP_DEEP], "failing_inputs": np_tot.bad,
+            },
+            "iter_permutations": {
+                "calls": ip_tot.c[IP_CASES], "arrangements_compared": ip_tot.c[IP_ITEMS], "unsorted_inputs": ip_tot.c[IP_UNSORTED],
+                "inputs_with_repeated_elements": ip_tot.c[IP_DUP], "calls_yielding_3_or_more": ip_tot.c[IP_NONTRIVIAL], "failing_inputs": ip_tot.bad,
+            },
+        }),
+    );
+    if np_tot.bad == 0 && (np_tot.c[NP_TRUE] == 0 || np_tot.c[NP_FALSE] == 0 || np_words_tie == 0 || np_tot.c[NP_DEEP] == 0 || np_tot.c[NP_TRUE] + np_tot.c[NP_FALSE] != np_tot.c[NP_CASES]) {
+        run.machinery_failure("next_permutation exploration is vacuous (no true / false / tie-sensitive / deep case)");
+    }
+    if ip_tot.bad == 0 && (ip_tot.c[IP_UNSORTED] == 0 || ip_tot.c[IP_DUP] == 0 || ip_tot.c[IP_NONTRIVIAL] == 0 || ip_tot.c[IP_ITEMS] <= ip_tot.c[IP_CASES]) {
+        run.machinery_failure("iter_permutations exploration is vacuous");
+    }
+
+    // ----------------------------------------------------------------------------------- neighbours
+    let maxgrid = 6usize;
+    let mut nb_cov = serde_json::Map::new();
+    let mut grids_without_cells = 0u64;
+    for n in 0..=maxgrid {
+        for m in 0..=maxgrid {
+            if n * m == 0 {
+                grids_without_cells += 1;
+            }
+        }
+    }
+    for kind in NB_KINDS {
+        let full = nb_offsets(kind).len();
+        let (mut calls, mut items, mut c_full, mut c_empty, mut c_cut, mut bad) = (0u64, 0u64, 0u64, 0u64, 0u64, 0u64);
+        let mut patterns: BTreeSet<u32> = BTreeSet::new();
+        let mut first: Option<([usize; 4], String)> = None;
+        for n in 0..=maxgrid {
+            for m in 0..=maxgrid {
+                for i in 0..n {
+                    for j in 0..m {
+                        // oracle self-check: the offset-table oracle yields the geometric neighbour set
+                        let e = nb_expected(kind, n, m, i, j);
+                        if e.iter().copied().collect::<BTreeSet<_>>() != nb_geometric(kind, n, m, i, j) || e.len() != nb_geometric(kind, n, m, i, j).len() {
+                            run.machinery_failure("neighbour order oracle is not the geometric neighbour set");
+                        }
+                        calls += 1;
+                        match check_nb(kind, n, m, i, j) {
+                            Ok((len, pat)) => {
+                                items += len as u64;
+                                patterns.insert(pat);
+                                if len == full {
+                                    c_full += 1;
+                                } else if len == 0 {
+                                    c_empty += 1;
+                                } else {
+                                    c_cut += 1;
+                                }
+                            }
+                            Err(msg) => {
+                                bad += 1;
+                                if first.is_none() {
+                                    first = Some(([n, m, i, j], msg));
+                                }
+                            }
+                        }
+                    }
+                }
+            }
+        }
+        evaluations += calls;
+        nontrivial += c_cut;
+        items_total += items;
+        nb_cov.insert(
+            kind.to_string(),
+            json!({"calls": calls, "cells_yielded": items, "cells_with_all_neighbours": c_full, "cells_with_none": c_empty,
+                   "cells_where_bounds_cut_the_list": c_cut, "distinct_kept_offset_patterns": patterns.len(), "failing_cells": bad}),
+        );
+        if let Some((g, msg)) = first {
+            let sig = format!("{kind}:n={},m={},i={},j={}", g[0], g[1], g[2], g[3]);
+            run.violation(Violation::new(sig, format!("{msg} [{bad} failing cells in this family]"), json!({"kind": kind, "n": g[0], "m": g[1], "i": g[2], "j": g[3]})));
+        } else if c_full == 0 || c_empty == 0 || c_cut == 0 || patterns.len() < 9 {
+            run.machinery_failure(&format!("{kind} exploration is vacuous"));
+        }
+    }
+    nb_cov.insert("grids".into(), json!(format!("all n x m with n, m in 0..={maxgrid}, every cell")));
+    nb_cov.insert("grids_without_cells".into(), json!(grids_without_cells));
+    run.cov("neighbours", Value::Object(nb_cov));
+
+    // ------------------------------------------------------------------------------------- evidence
+    run.cov("evaluations", evaluations);
+    run.cov("distinct_nontrivial", nontrivial);
+    run.cov("items_compared", items_total);
+    run.cov("skipped_out_of_domain", 0u64);
+    run.cov("exhaustive", true);
+    run.cov("overflow_checks_in_this_build", overflow_checks_on());
+    run.cov(
+        "rule",
+        format!(
+            "every input of the stated spaces, each once, simplest first: masks = every bit pattern of u8,i8,u16,i16 and, for u32..i128/usize/isize, every mask whose free bits (set bits for submasks, zero bits for supermasks) are a subset of size <= {max_free_wide} of positions {{0,1,2,7,8,15,16,31,32,63,64,127}} below the width; sequences = every word over {{0,1,2}} of length 0..={maxlen} (u8) and every permutation of 0..n for n <= {maxn} (i32), each fed to next_permutation once and to iter_permutations once; neighbours = every cell of every grid 0..=6 x 0..=6 for the three iterators. evaluations = calls of the real function compared with the reference. distinct_nontrivial = measured number of those inputs on which the real code took a non-degenerate path: masks that yielded >= 3 items, next_permutation calls that changed a position before the last two, iter_permutations calls that yielded >= 3 arrangements (for permutations of distinct elements only n >= 4 is counted, smaller ones recur among the words), neighbour cells whose list was non-empty but cut by the bounds"
+        ),
+    );
+    run.assume("the fixed order of the neighbour iterators is taken from the crate's own tests (/repo/rlib/iter/tests/tests.rs): offsets (0,1),(-1,0),(0,-1),(1,0) / (-1,1),(-1,-1),(1,-1),(1,1) / (0,1),(-1,1),(-1,0),(-1,-1),(0,-1),(1,-1),(1,0),(1,1) as (row,column) deltas, filtered to the grid; the engine checks that its oracle reproduces those test literals and that it equals the geometric neighbour set");
+    run.assume("masks are compared as unsigned bit patterns of the type's own width (signed items are reinterpreted with `as`), as the property states");
+    run.assume(&format!("usize/isize are {}-bit on this target", usize::BITS));
+    run.assume("wide-type masks are structured (bounded free bits over 12 boundary positions), not all masks; 8- and 16-bit types are complete");
+
+    // samples (plain calls; VERIF_SEED only rotates which ones are shown)
+    let s = seed as usize;
+    {
+        // (type index, direction, mask bits); rendered in the type's own signed/unsigned reading
+        let picks: [(usize, Dir, u128); 4] = [
+            (1, Dir::Sub, 0x80u128 | [0x0Du128, 0x15, 0x46, 0x29][s % 4]),
+            (3, Dir::Sup, 0x7FF0u128 | (s as u128 * 5 & 0xF)),
+            (11, Dir::Sub, (1u128 << 127) | (1 << 64) | (1 << (s % 3))),
+            (6, Dir::Sup, !((1u128 << 63) | (1 << 31) | 1) & width_mask(64)),
+        ];
+        for (ty, dir, x) in picks {
+            let mut got: Vec<String> = vec![];
+            let r = catch(|| {
+                drive(ty, dir, x, |y| {
+                    got.push(show(ty, y));
+                    got.len() < 300
+                })
+            });
+            run.sample(json!({"call": format!("{}::<{}>({})", dir.func(), TYPES[ty].name, show(ty, x)), "yielded": got, "panicked": r.err()}));
+        }
+        let w = &words[(words.len() - 1 - (s * 7 + 40) % 700).min(words.len() - 1)];
+        let mut d = w.clone();
+        let r = catch(|| next_permutation(&mut d));
+        run.sample(json!({"call": format!("next_permutation({w:?})"), "returned": format!("{r:?}"), "sequence_after": d}));
+        let mut d: Vec<u8> = vec![1, 0, (s % 3) as u8, 2, 2, 1];
+        let before = d.clone();
+        let r = catch(|| next_permutation(&mut d));
+        run.sample(json!({"call": format!("next_permutation({before:?})"), "returned": format!("{r:?}"), "sequence_after": d}));
+        let w: Vec<u8> = vec![2, 0, (s % 3) as u8, 2];
+        let got = catch(|| iter_permutations(w.clone()).take(30).collect::<Vec<_>>());
+        run.sample(json!({"call": format!("iter_permutations({w:?})"), "yielded": format!("{got:?}")}));
+        let (n, m, i, j) = (3, 4, s % 3, 3 - s % 4);
+        run.sample(json!({"call": format!("iter_neighbours_8({n},{m},{i},{j})"), "yielded": format!("{:?}", nb_real("neighbours_8", n, m, i, j))}));
+        run.sample(json!({"call": format!("iter_neighbours_4d({n},{m},{i},{j})"), "yielded": format!("{:?}", nb_real("neighbours_4d", n, m, i, j))}));
+    }
+    run.finish(&confirm)
+}
